@@ -99,7 +99,15 @@ func main() {
 	}
 	sort.Strings(keys)
 	var reports []funcReport
+	// modular dependency closure: a function tagged with the property relies on the contracts of the verified
+	// functions it calls, so their obligations belong to the property's check too
+	pulled := map[string]bool{}
+	inKeys := map[string]bool{}
 	for _, k := range keys {
+		inKeys[k] = true
+	}
+	for qi := 0; qi < len(keys); qi++ {
+		k := keys[qi]
 		fi, fc := e.funcs[k], e.cs.Funcs[k]
 		e.prepFunc(fi)
 		for ord := range fc.LoopInv {
@@ -111,6 +119,20 @@ func main() {
 		}
 		rep := e.VerifyFunc(fi, fc)
 		reports = append(reports, rep)
+		if *prop != "all" && *only == "" {
+			var more []string
+			for d := range e.deps[k] {
+				if !inKeys[d] {
+					more = append(more, d)
+				}
+			}
+			sort.Strings(more)
+			for _, d := range more {
+				inKeys[d] = true
+				pulled[shortKey(d)] = true
+				keys = append(keys, d)
+			}
+		}
 		if *verbose {
 			fmt.Fprintf(os.Stderr, "  %-60s obligations=%d returns=%d %s\n", shortKey(k), rep.NObl, rep.ReturnPaths, rep.Err)
 		}
@@ -127,7 +149,7 @@ func main() {
 	var obls []*Obligation
 	unclaimed := 0
 	for _, o := range e.obls {
-		if (*prop == "all" && (len(o.Props) > 0 || o.ExpectSat || o.Kind == "lemma")) || contains(o.Props, *prop) {
+		if (*prop == "all" && (len(o.Props) > 0 || o.ExpectSat || o.Kind == "lemma")) || contains(o.Props, *prop) || (pulled[o.Fn] && len(o.Props) > 0) {
 			obls = append(obls, o)
 		} else if *prop == "all" {
 			unclaimed++ // safety obligations of a function whose contract tags them with no property
@@ -246,7 +268,11 @@ func main() {
 				props = []string{"safety"}
 			}
 			for _, p := range props {
-				if kf := findKnown(known, p, o.Key); kf != nil {
+				kp := p
+				if pulled[o.Fn] {
+					kp = "all" // obligation included through the dependency closure: a listed finding is matched by its key
+				}
+				if kf := findKnown(known, kp, o.Key); kf != nil {
 					nKnown++
 					knownObls[o.Name] = true
 					if !printedKnown[p+o.Key] {
